@@ -54,12 +54,16 @@ func newC09H(t *testing.T, p coreParams) *c09H {
 	return &c09H{t: t, core: core, e: newIbcEnvOnCore(t, core)}
 }
 
-// rollapp clock: token -> time
+// rollapp clock: token -> time.  One token is a quarter of a second, so that perturbed timestamps
+// (ts+3) fall into the same Unix second as the honest one for every other height: agreement of a
+// consensus state and a block descriptor is agreement of the exact instants, not of the seconds.
+const c09Tick = 250 * time.Millisecond
+
 func c09Time(tok uint64) time.Time {
-	return BaseTime.Add(-2 * time.Hour).Add(time.Duration(tok) * time.Second)
+	return BaseTime.Add(-2 * time.Hour).Add(time.Duration(tok) * c09Tick)
 }
 func c09TimeTok(t time.Time) uint64 {
-	return uint64(t.Sub(BaseTime.Add(-2*time.Hour)) / time.Second)
+	return uint64(t.Sub(BaseTime.Add(-2*time.Hour)) / c09Tick)
 }
 
 // actor tokens on op lines: a<k> = core actor k, x<k> = a key no sequencer registered
